@@ -420,7 +420,11 @@ def rule_strans_bits_reader(ctx, g, rid):
         t = terms[0]
         adt = F.adts["gds21::data::GdsStrans"]["variants"][0]["fields"]
         fnames = [x["name"] for x in adt]
-        # params: self=1, d0=2, d1=3
+        # the two flag bytes are the function's two u8 parameters, in order (a method has self first, a free helper does not)
+        bytes_p = [i + 1 for i, ty in enumerate(f.inputs) if ty.get("s") == "u8"]
+        if len(bytes_p) != 2:
+            ctx.note(rid, "%s builds GdsStrans from something other than two flag bytes %s: bit positions not decided here" % (f.short, [ty.get("s") for ty in f.inputs]))
+            continue
         for nm, (byte, mask) in ORACLE["strans_bits"].items():
             i = fnames.index(nm)
             term = t[2][i]
@@ -428,7 +432,7 @@ def rule_strans_bits_reader(ctx, g, rid):
             good = True
             for val in (0, mask, 0xFF, 0xFF ^ mask, 1, 0x80, 0x04, 0x02, 0x06, 0x7F):
                 for other in (0, 0xFF, 0x80, 0x04, 0x02, 0x79):
-                    got = eval_param_expr(term, {2 + byte: val, 2 + (1 - byte): other})
+                    got = eval_param_expr(term, {bytes_p[byte]: val, bytes_p[1 - byte]: other})
                     if got is None or got != int(bool(val & mask)):
                         good = False
             if good:
@@ -571,11 +575,44 @@ def rule_encoder_grammar(ctx, g, rid):
     nonterm = {}
     encs = [f for f in F.fns.values() if f.id.startswith("gds21::write::Encode::encode_") and f.impl is None]
     npaths = 0
+    raw = {}
     for f in encs:
-        ps, trunc = gc.encoder_paths(F, f)
-        ps = [p for p in ps]
-        if not any(p for p in ps):
+        raw[f.short.split("::")[-1]] = gc.encoder_paths(F, f)
+    # fragments: helpers that other encoders call and whose first record begins no production of the manual
+    # (a property list, an element head ...).  Their record sequences are spliced into their callers.
+    NT_NAMES = {"encode_struct", "encode_element", "encode_strans", "encode_lib"}
+
+    def firsts_of(nm):
+        return {p[0][1] for p in raw[nm][0] if p and p[0][0] == "rec"}
+    called = {e[1] for nm in raw for p in raw[nm][0] for e in p if e[0] == "call"}
+    fragments = {nm for nm in raw if nm in called and nm not in NT_NAMES and firsts_of(nm) and not (firsts_of(nm) & set(GRAMMAR_RE))}
+
+    def expand(nm, depth=0):
+        out = []
+        for p in raw[nm][0]:
+            alts = [[]]
+            for e in p:
+                if e[0] == "call" and e[1] in fragments and depth < 3:
+                    sub = expand(e[1], depth + 1)
+                    alts = [a + sb for a in alts for sb in sub][:4000]
+                else:
+                    for a in alts:
+                        a.append(e)
+            out += alts
+        # dedupe
+        seen_, res = set(), []
+        for a in out:
+            k = tuple((e[0], e[1]) for e in a)
+            if k not in seen_:
+                seen_.add(k)
+                res.append(a)
+        return res
+    for f in encs:
+        nm0 = f.short.split("::")[-1]
+        if nm0 in fragments:
+            ctx.ok(rid, f.short + "/fragment", "helper spliced into its callers")
             continue
+        ps, trunc = expand(nm0), raw[nm0][1]
         firsts = {p[0][1] for p in ps if p and p[0][0] == "rec"}
         if not firsts:
             # pure dispatcher (encode_element): every path is one call
@@ -790,12 +827,21 @@ def get_flow(F):
     return fl
 
 
-def writer_field_map(F, fn):
-    """{'V.payload' | '<nonterminal>': set of element field chains (tuples)} over all paths of an encoder"""
+_WFM = {}
+
+
+def _field_map_full(F, fn, depth=0):
+    """(first record, {'V.payload' | '<nonterminal>': set of (param index, field chain)}) over all paths of an encoder,
+    with helper encoders (fragments such as a shared property-list or element-head writer) composed in"""
+    if fn.id in _WFM:
+        return _WFM[fn.id]
+    _WFM[fn.id] = (None, {})
     ps, trunc = gc.encoder_paths(F, fn)
     m = {}
     first = None
     recv = {v["name"]: [fl["name"] for fl in v["fields"]] for v in F.adts[gc.REC]["variants"]}
+    helpers = {f.short.split("::")[-1]: f for f in F.fns.values() if f.id.startswith("gds21::write::Encode::encode_") and f.impl is None}
+    clean = lambda ch: tuple(c for c in ch if not c.startswith("["))
     for p in ps:
         if p and p[0][0] == "rec":
             first = p[0][1]
@@ -805,15 +851,33 @@ def writer_field_map(F, fn):
                 for j, chains in enumerate(e[2]):
                     key = "%s.%s" % (e[1], names[j] if j < len(names) else j)
                     for (pi, ch) in chains:
-                        if pi == 2:
-                            m.setdefault(key, set()).add(tuple(c for c in ch if not c.startswith("[")))
+                        m.setdefault(key, set()).add((pi, clean(ch)))
             else:
                 nt = {"encode_struct": "<struct>", "encode_element": "<element>", "encode_strans": "<strans>"}.get(e[1])
                 if nt:
                     for chains in e[2]:
                         for (pi, ch) in chains:
-                            if pi == 2:
-                                m.setdefault(nt, set()).add(tuple(c for c in ch if not c.startswith("[")))
+                            m.setdefault(nt, set()).add((pi, clean(ch)))
+                elif e[1] in helpers and depth < 3 and helpers[e[1]].id != fn.id:
+                    hf, hm = _field_map_full(F, helpers[e[1]], depth + 1)
+                    for key, srcs in hm.items():
+                        for (hp, hch) in srcs:
+                            j = hp - 2
+                            if 0 <= j < len(e[2]):
+                                for (pi, ch) in e[2][j]:
+                                    m.setdefault(key, set()).add((pi, clean(ch) + hch))
+    _WFM[fn.id] = (first, m)
+    return _WFM[fn.id]
+
+
+def writer_field_map(F, fn):
+    """{'V.payload' | '<nonterminal>': set of element field chains (tuples)} over all paths of an encoder"""
+    first, full = _field_map_full(F, fn)
+    m = {}
+    for key, srcs in full.items():
+        for (pi, ch) in srcs:
+            if pi == 2:
+                m.setdefault(key, set()).add(ch)
     return first, m
 
 
